@@ -172,6 +172,12 @@ CLAIMED = {
    text=('Decides that every raw Read::read/Write::write is a forwarding impl, a count-driven loop, or only ever instantiated on in-memory cursors, and that every discarded I/O Result in the I/O layers is an Option-lookup `.ok()?`, a tested is_ok/is_err whose error outcome returns, or a tabled exception.'),
    note='Undecided: equality of results under arbitrary chunking. Trusted base: ' + TRUSTED,
    design='5/C35'),
+ 'C11': dict(
+   technique='def-use routing rule on the reader entry points + full path enumeration of format_from_stream + compile-time table agreement between sniffer constants and handler tables',
+   text=('Decides that the stream/file reader entry points hand the store loader the result of format_from_stream(hint, stream), that format_from_stream returns the hint only when detection failed or containers agree, '
+         'and that every container id the sniffer can return is the first entry of a handler SUPPORTED_TYPES table (static or promoted initialiser values).'),
+   note='Undecided: equality of whole reports; entry points that take a hint without sniffing (manifest-data, fragment, ingredient variants) are outside the clause and listed in the evidence. Trusted base: ' + TRUSTED,
+   design='5/C11'),
 }
 
 NA_REASONS = {
